@@ -312,6 +312,15 @@ def labelset(repo, res, cls):
                     filt = True
                 if isinstance(n, ast.Call) and unparse(n.func, 0).split('.')[-1] in ('setdiff1d', 'flatnonzero', 'nonzero', 'compress'):
                     filt = True
+        # ... and the filter is applied to the relabelled values: no relabel step after the last zero filter
+        asg = [n_ for n_ in ast.walk(f.node) if isinstance(n_, ast.Assign) and len(n_.targets) == 1
+               and isinstance(n_.targets[0], ast.Name)]
+        pos = {id(n_): (n_.lineno, n_.col_offset) for n_ in asg}
+        maps = [pos[id(n_)] for n_ in asg if 'relabel_map' in unparse(n_.value, 0)]
+        filts = [pos[id(n_)] for n_ in asg if '!= 0' in unparse(n_.value, 0) or '> 0' in unparse(n_.value, 0)
+                 or '0 !=' in unparse(n_.value, 0)]
+        if maps and filts and max(maps) > max(filts):
+            filt = False
         ok = uses_map and filt
         res.oblige('LABELSET', '_update_deblend_label_map filters labels mapped to 0 before storing', ok, nontrivial=True,
                    sample={'store': norm_stmt_text(st)})
